@@ -177,7 +177,7 @@ func (s *Session) symVal(name string, t types.Type) Val {
 			}
 			return r
 		}
-		return Opaque{"large array " + t.String()}
+		return ArrayV{Arr: &Arr{Name: name + "[]", Elem: u.Elem()}, N: u.Len()}
 	case *types.Interface:
 		if isErrorType(t) {
 			id := s.declare(name+"?id", "Int")
@@ -234,7 +234,7 @@ func (s *Session) zeroVal(t types.Type) Val {
 			}
 			return r
 		}
-		return Opaque{"large array"}
+		return ArrayV{Arr: &Arr{Name: s.fresh("array"), Elem: u.Elem(), Zero: true}, N: u.Len()}
 	case *types.Interface:
 		if isErrorType(t) {
 			return Err{"0", "0"}
@@ -366,12 +366,13 @@ type State struct {
 	writes map[string]bool // components written on this path (for frame.modifies)
 	names  map[string]Val  // "<func>.<var>" -> latest value seen in a DebugRef (source-level names for invariants)
 	ghost  map[string]Sc   // ghost variables of the function under verification
+	caps   map[string]Val  // captured call arguments/results (contract directive `capture`)
 	wcount map[string]int  // per table: number of write operations so far on this path (iterator validity)
 }
 
 func NewState() *State {
 	return &State{regs: map[ssa.Value]Val{}, mem: map[*Loc]Val{}, arrs: map[*Arr]*ArrContent{}, comps: map[string]string{},
-		iters: map[*IterObj]*IterState{}, writes: map[string]bool{}, names: map[string]Val{}, ghost: map[string]Sc{}, wcount: map[string]int{}}
+		iters: map[*IterObj]*IterState{}, writes: map[string]bool{}, names: map[string]Val{}, ghost: map[string]Sc{}, wcount: map[string]int{}, caps: map[string]Val{}}
 }
 
 func (st *State) Clone() *State {
@@ -380,6 +381,10 @@ func (st *State) Clone() *State {
 		iters: make(map[*IterObj]*IterState, len(st.iters)), writes: make(map[string]bool, len(st.writes)), names: make(map[string]Val, len(st.names))}
 	for k, v := range st.names {
 		n.names[k] = v
+	}
+	n.caps = make(map[string]Val, len(st.caps))
+	for k, v := range st.caps {
+		n.caps[k] = v
 	}
 	n.wcount = make(map[string]int, len(st.wcount))
 	for k, v := range st.wcount {
@@ -463,6 +468,12 @@ func (s *Session) locContent(st *State, l *Loc) Val {
 			p.Nil = "false"
 			v = p
 		}
+		if ev, ok := v.(Err); ok && l.Glob != nil && globalErrInitialised(l.Glob) {
+			// package-level error variable initialised with errors.New / fmt.Errorf / Register: non-nil,
+			// and its identity is the sentinel code of the variable
+			c := s.sentinelCode(l.Glob.String())
+			st.assume(and(eq(ev.ID, c), eq(ev.Root, c)))
+		}
 		st.mem[l] = v
 		return v
 	}
@@ -518,10 +529,18 @@ func (s *Session) arrContent(st *State, a *Arr) *ArrContent {
 	if c, ok := st.arrs[a]; ok {
 		return c
 	}
-	c := &ArrContent{Cells: map[string]Val{}, Sym: true}
+	c := &ArrContent{Cells: map[string]Val{}, Sym: !a.Zero}
 	if sorts, ok := s.leafSorts(a.Elem); ok {
+		var zl []string
+		if a.Zero {
+			s.flatten(s.zeroVal(a.Elem), &zl)
+		}
 		for i, so := range sorts {
-			c.Leaves = append(c.Leaves, s.declare(fmt.Sprintf("%s#%d", a.Name, i), "(Array Int "+so+")"))
+			if a.Zero {
+				c.Leaves = append(c.Leaves, fmt.Sprintf("((as const (Array Int %s)) %s)", so, zl[i]))
+			} else {
+				c.Leaves = append(c.Leaves, s.declare(fmt.Sprintf("%s#%d", a.Name, i), "(Array Int "+so+")"))
+			}
 		}
 	}
 	st.arrs[a] = c
@@ -604,4 +623,39 @@ func sortedKeys(m map[string]bool) []string {
 	}
 	sort.Strings(ks)
 	return ks
+}
+
+// globalErrInitialised: the package initialiser stores a freshly constructed error into g.
+func globalErrInitialised(g *ssa.Global) bool {
+	if g.Pkg == nil {
+		return false
+	}
+	init := g.Pkg.Func("init")
+	if init == nil {
+		return false
+	}
+	for _, b := range init.Blocks {
+		for _, ins := range b.Instrs {
+			st, ok := ins.(*ssa.Store)
+			if !ok || st.Addr != ssa.Value(g) {
+				continue
+			}
+			v := st.Val
+			if mi, ok := v.(*ssa.MakeInterface); ok {
+				v = mi.X
+			}
+			switch c := v.(type) {
+			case *ssa.Call:
+				if f := c.Call.StaticCallee(); f != nil {
+					switch f.Name() {
+					case "New", "Errorf", "Register", "RegisterWithGRPCCode", "Wrap", "Wrapf":
+						return true
+					}
+				}
+			case *ssa.Alloc:
+				return true
+			}
+		}
+	}
+	return false
 }
